@@ -32,6 +32,7 @@ fn profile() -> Profile {
     p.allow_nearest = true;
     p.size_weights = [20, 110, 100, 20, 0];
     p.exts = vec![CpuExtensions::None];
+    p.allow_custom = true;
     p
 }
 
@@ -62,7 +63,22 @@ fn decode_history(t: &mut Tape) -> Vec<Op> {
                 });
                 let mut spec = match prev {
                     Some(mut ps) if t.chance(100) => {
-                        match t.below(8) {
+                        match t.below(9) {
+                            8 => {
+                                // another custom kernel with the same name and support (they compare equal as `Filter`s)
+                                let support = match ps.alg.filter() {
+                                    Some(crate::spec::FilterSpec::Custom(c)) => c.support,
+                                    _ => 2.0,
+                                };
+                                let mut c = crate::spec::decode_custom(t, false);
+                                c.support = support;
+                                let nf = crate::spec::FilterSpec::Custom(c);
+                                ps.alg = match ps.alg {
+                                    AlgSpec::Interp(_) => AlgSpec::Interp(nf),
+                                    AlgSpec::Super(_, m) => AlgSpec::Super(nf, m),
+                                    _ => AlgSpec::Conv(nf),
+                                }
+                            }
                             0 => {
                                 ps.alg = match ps.alg {
                                     AlgSpec::Conv(f) => AlgSpec::Interp(f),
@@ -101,7 +117,21 @@ fn decode_history(t: &mut Tape) -> Vec<Op> {
                         }
                         ps
                     }
-                    _ => ResizeSpec::decode(t, &prof),
+                    _ => {
+                        let mut s = ResizeSpec::decode(t, &prof);
+                        if t.chance(4) {
+                            // one big call (> 8 MB of scratch data) so that later small calls meet big buffers
+                            s.sw = 1100 + t.range(0, 200);
+                            s.sh = 900 + t.range(0, 200);
+                            s.dw = 280 + t.range(0, 40);
+                            s.dh = 190 + t.range(0, 20);
+                            s.crop = CropSpec::None;
+                            s.pt = t.pick(&[fr::PixelType::U16x4, fr::PixelType::F32x4, fr::PixelType::U8x4, fr::PixelType::F32x3]);
+                            s.use_alpha = true;
+                            s.content.class = 1;
+                        }
+                        s
+                    }
                 };
                 let mut dst_pt = None;
                 match 15 - t.below(16) {
@@ -217,6 +247,11 @@ fn check(tape: &[u8], _ctx: &Ctx) -> Outcome {
                         return o;
                     }
                     (Err(p), Err(_)) => {
+                        if matches!(spec.alg.filter(), Some(crate::spec::FilterSpec::Custom(_))) {
+                            // a custom kernel outside the no-panic domain (C03's business): both panic alike
+                            o.label("custom-kernel-panics-on-both");
+                            continue;
+                        }
                         o.fail(format!("step {}: panic on the reused and on a fresh Resizer: {}", step, p));
                         return o;
                     }
